@@ -107,6 +107,30 @@ def main(argv):
                        checks)
         print(json.dumps(res, indent=1))
         return 0
+    if argv[0] == 'some':
+        # re-evaluate the named seeded changes (e.g. after re-basing their
+        # patches) and merge the verdicts into seeded/RESULTS_extra.json
+        root = os.path.join(VERIF, 'seeded')
+        path = os.path.join(root, 'RESULTS_extra.json')
+        doc = {'tier': tier, 'results': []}
+        if os.path.exists(path):
+            with open(path) as fil:
+                doc = json.load(fil)
+        byid = {r['id']: r for r in doc['results']}
+        for name in argv[1:]:
+            if name.startswith('--'):
+                break
+            with open(os.path.join(root, name, 'meta.json')) as fil:
+                meta = json.load(fil)
+            res = evaluate(os.path.join(root, name), tier=tier, seed=seed,
+                           checks=meta.get('checks'))
+            byid[name] = res
+            print(json.dumps(res)[:300])
+            sys.stdout.flush()
+        doc['results'] = [byid[k] for k in sorted(byid)]
+        with open(path, 'w') as fil:
+            json.dump(doc, fil, indent=1)
+        return 0
     if argv[0] == 'all':
         root = os.path.join(VERIF, 'seeded')
         results = []
